@@ -88,9 +88,12 @@ def rv(rng, dt, na=0.2):
 
 
 # ------------------------------------------------------------------ axis specs
-def rand_axis(rng, n, kinds=('int', 'str', 'float', 'object', 'date', 'ih', 'ih')):
+def rand_axis(rng, n, kinds=('int', 'str', 'float', 'object', 'date', 'ih', 'ih', 'auto')):
     k = rng.choice(kinds)
     name = rng.choice(NAMES)
+    if k == 'auto':
+        # an automatic index (labels = positions, no label map), named afterwards: name / dtype / class flags apply to it too
+        return {'k': 'flat', 'dt': 'int64', 'labels': [f'i:{v}' for v in range(n)], 'name': name, 'cls': 'Index', 'auto': True}
     if k == 'ih' and n >= 1:
         depth = rng.choice([2, 2, 3])
         labs = product_labels(rng, n, depth) if rng.random() < 0.5 else None
@@ -142,6 +145,12 @@ def build_axis(spec, go=None):
         cls_name = cls_name[:-2]
     cls = getattr(sf, cls_name)
     if spec['k'] == 'flat':
+        if spec.get('auto') and spec['dt'] == 'int64' and cls_name in ('Index', 'IndexGO') \
+                and spec['labels'] == [f'i:{v}' for v in range(len(spec['labels']))]:
+            auto = sf.Series(np.zeros(len(spec['labels']))).index          # the automatic index of a container
+            ix = (auto if cls_name == 'Index' else sf.IndexGO(auto)).rename(name)
+            if ix._map is None:
+                return ix
         arr = gen.col_array(spec['dt'], spec['labels'])
         arr.flags.writeable = False
         return cls(arr, name=name)
